@@ -22,10 +22,12 @@ for cand in re.findall(r"((?:\./)?(?:pkg|cmd)/[\w\-/\.]+)", notes):
     if os.path.isdir(f"{wt}/{c}") and c not in cands:
         cands.append(c)
 def pkgname(d):
-    for f in sorted(os.listdir(f"{wt}/{d}")):
-        if f.endswith('.go') and not f.endswith('_test.go'):
-            mm = re.search(r"^package\s+(\w+)", open(f"{wt}/{d}/{f}").read(), re.M)
-            if mm: return mm.group(1)
+    fs = sorted(os.listdir(f"{wt}/{d}"))
+    for f in [x for x in fs if x.endswith('.go') and not x.endswith('_test.go')] + [x for x in fs if x.endswith('_test.go')]:
+        mm = re.search(r"^package\s+(\w+)", open(f"{wt}/{d}/{f}").read(), re.M)
+        if mm:
+            n = mm.group(1)
+            return n[:-5] if n.endswith('_test') else n
     return None
 for c in cands:
     if pkgname(c) in (pkgclause, pkgclause[:-5] if pkgclause.endswith('_test') else pkgclause):
